@@ -194,6 +194,11 @@ def F18():
     return isinstance(r, str) and 'UnsafeError' in r, r
 
 
+def F19():
+    r = _plain(_try(lambda: _build("a: &x [1, 2]\nb: {c: *x}\n")))
+    return r == {'a': [1, 2], 'b': {'c': [1, 2]}}, r
+
+
 def K1():
     """C12.R1 known finding: namespace cached in sys.modules across builds."""
     code = ("import awesomeyaml as ay\n"
@@ -266,7 +271,7 @@ def K6():
     return out == str(sum(range(130))), (rc, out, err[-120:])
 
 
-ALL = ['F%d' % i for i in range(1, 19)] + ['K1', 'K2', 'K3', 'K4', 'K5', 'K6', 'K7']
+ALL = ['F%d' % i for i in range(1, 20)] + ['K1', 'K2', 'K3', 'K4', 'K5', 'K6', 'K7']
 
 if __name__ == '__main__':
     if len(sys.argv) == 3 and sys.argv[1] == '--one':
